@@ -258,6 +258,8 @@ def render_error_item(e):
         "arith_partial0": ["void fv() { }", "void fe() {", "X = fv() + 1;", "}"],
         "complex_type": ["short *ctp;"],
         "complex_local": ["void fe() {", "  short *clp;", "}"],
+        "continue_in_switch": ["void fe() {", "  switch (X) { case 1:", "    continue;", "  }", "}"],
+        "continue_in_switch0": ["void fe() {", "  switch (X) { case 1:", "continue;", "  }", "}"],
         "complex_param": ["void fe(char okp,", "        short *cpp) {", "}"],
     }[k]
 
